@@ -578,6 +578,43 @@ def c10_10(ctx):
     return out
 
 
+def c10_12(ctx):
+    """PSBTIn.validate, single-key segwit inputs: the hash160 the derivation's public key is compared with is the
+    program of the script that actually commits to the key — the ScriptPubKey for a native p2wpkh input, the RedeemScript
+    for a p2sh-p2wpkh input (there the ScriptPubKey holds hash160(RedeemScript)).  Otherwise every honest p2sh-p2wpkh
+    PSBT carrying a BIP32 derivation is rejected on load and parse(serialize(x)) fails."""
+    spec = "psbt:PSBTIn.validate"
+    mod, fn = rl.get(ctx, spec)
+    cfg = cfg_of(fn)
+    out = []
+    for n in cfg.tests():
+        t = n.ast
+        if not (isinstance(t, ast.Compare) and len(t.ops) == 1 and isinstance(t.ops[0], (ast.Eq, ast.NotEq))):
+            continue
+        lo, ro = origins(fn, n.id, t.left), origins(fn, n.id, t.comparators[0])
+        for key_side, other, oexpr in ((lo, ro, t.comparators[0]), (ro, lo, t.left)):
+            if "call:hash160" in key_side and any(a.startswith("attr:self.named_pubs") for a in key_side) and "call:hash160" not in other:
+                # is this the comparison of the witness (p2wpkh / p2sh-p2wpkh) arm?  the arm is entered through a
+                # redeem_script.is_p2wpkh() alternative
+                arm = [m_ for m_ in cfg.tests() if isinstance(m_.ast, ast.Call) and call_name(m_.ast) == "is_p2wpkh" and "redeem_script" in ast.unparse(m_.ast)
+                       and n.id in cfg.reach([b for b, l in cfg.succ[m_.id] if l is True])]
+                if not arm:
+                    continue
+                from_spk = "attr:script_pubkey.commands" in other
+                from_redeem = "attr:self.redeem_script.commands" in other
+                if from_spk and from_redeem:
+                    out.append(ctx.ok(spec, "the key of a p2wpkh input is compared with the ScriptPubKey program, of a p2sh-p2wpkh input with the RedeemScript program", t, mod, key="p2sh-p2wpkh-key"))
+                elif from_spk:
+                    out.append(ctx.bad(spec, "`%s` compares the derivation's key with the ScriptPubKey program also for p2sh-p2wpkh inputs, where the ScriptPubKey holds "
+                                             "hash160(RedeemScript): every honest p2sh-p2wpkh PSBT with a BIP32 derivation is rejected, the library cannot parse the PSBT it "
+                                             "serialised" % ast.unparse(t), t, mod, key="p2sh-p2wpkh-key"))
+                else:
+                    out.append(ctx.err(spec, "source of the compared hash160 `%s` not recognised" % ast.unparse(oexpr), t, mod))
+    if not out:
+        raise AnalysisError("PSBTIn.validate: comparison of the named pubkey's hash160 in the p2wpkh / p2sh-p2wpkh arm not found")
+    return out
+
+
 def c10_11(ctx):
     """no validation / signing result of the PSBT layer is remembered under a key that leaves out one of its inputs"""
     from sa.memo import memo_obligation
@@ -585,6 +622,7 @@ def c10_11(ctx):
 
 
 OBLIGATIONS = [
+    ("C10.12", "DATAFLOW commitment", c10_12),
     ("C10.11", "MEMO", c10_11),
     ("C10.10", "COVER loops", c10_10),
     ("C10.1", "LAYOUT writer↔reader", c10_1),
